@@ -81,7 +81,7 @@ class Stream(Engine):
             elif kind == 'header':
                 spec = gen.gen_header(rng)
             else:
-                spec = gen.gen_block(rng, 3, big, many=True)
+                spec = gen.gen_block(rng, 3, big, many=True, valid_merkle=False)
             steps.append({'t': 0.0, 'prio': 0, 'party': 0, 'op': 'object', 'args': {
                 'kind': kind, 'spec': spec,
                 'offsets': [rng.randrange(1 << 30) for _ in range(64)],
